@@ -174,6 +174,9 @@ FopStep(pc, op, sy) ==
       [] op = "aof.log.select"   /\ r = "rw5"                             -> <<w, "rw5s", pc[3]>>
       [] op = "aof.log.sync"     /\ r \in {"rw5", "rw5s"}                 -> <<w, "rw6", pc[3]>>
       [] op = "rw.done"          /\ r = "rw6"                             -> <<w, "idle", pc[3]>>
+      \* under "everysec" a background goroutine syncs the log at any moment: its sync right after the rewrite's
+      \* truncation is indistinguishable from the rewrite's own, which then follows the SELECT marker
+      [] op = "aof.log.select"   /\ r = "rw6" /\ sy = "everysec"          -> pc
       [] op = "aof.log.sync"     /\ sy = "everysec"                       -> pc
       [] op \in SnapOps /\ SnapNext(pc[3], op) # -1                         -> <<w, r, SnapNext(pc[3], op)>>
       [] op = "end.running"      /\ w \in {"idle", "handled"} /\ r = "idle" -> <<"idle", "idle", pc[3]>>
@@ -190,7 +193,7 @@ TraceOther ==
     /\ l' = l + 1 /\ UNCHANGED <<st, hist, rws, dev, nskip, nimg, wpc, sync, saves>>
 
 \* result: set of finding names that explain the image ({} = the property holds), or {"violation"}, or {"skip"}
-ImageVerdict(e) ==
+ImageVerdict1(e) ==
     LET got  == Got(e)
         f    == Faithful(e, TRUE, FALSE)                    \* what the code does: lossy checkpoints, replay at restore time
         ok(x) == x.ok /\ PrefixOK(e, Norm(x.S, e.now))
@@ -205,6 +208,20 @@ ImageVerdict(e) ==
             THEN {"PersistJSONTypes", "AofReplayClock"}
        ELSE IF (e.inrw \/ LostWrites(e)) /\ has("RewriteNotAtomic") THEN {"RewriteNotAtomic"}
        ELSE {"violation"}
+
+\* Under "everysec" the background syncer is a goroutine of its own: an image taken at ITS point while a rewrite
+\* is under way may catch the rewrite between a file operation and the point that reports it, so the files may be
+\* one rewrite step ahead of the recorded stage.  Such an image is judged against both stages.
+RwNext == [x \in {"aof.pre.copied", "aof.pre.truncate", "aof.pre.write", "aof.pre.sync", "aof.log.truncate", "aof.log.select"} |->
+             CASE x = "aof.pre.copied" -> "aof.pre.truncate" [] x = "aof.pre.truncate" -> "aof.pre.write"
+               [] x = "aof.pre.write" -> "aof.pre.sync" [] x = "aof.pre.sync" -> "aof.log.truncate"
+               [] x = "aof.log.truncate" -> "aof.log.select" [] OTHER -> "aof.log.sync"]
+ImageVerdict(e) ==
+    LET v == ImageVerdict1(e) IN
+    IF v # {"violation"} THEN v
+    ELSE IF e.inrw /\ sync = "everysec" /\ e.at = "aof.log.sync" /\ e.rwstage \in DOMAIN RwNext
+         THEN ImageVerdict1([e EXCEPT !.rwstage = RwNext[e.rwstage]])
+    ELSE v
 
 TraceImage ==
     /\ l <= Len(Trace) /\ Trace[l].ev = "image"
